@@ -546,8 +546,8 @@ def small_cases(rng, reps):
 def generate(tier, rng):
     allL = list(range(4, 15))
     if tier == 'thorough':
-        streams = [deletion_cases(rng, allL, 200) for _round in range(3)]   # every (subset, total) pair three
-        streams += [insertion_cases(rng, allL, 80, 200),                    # times, in differently mixed batches
+        streams = [deletion_cases(rng, allL, 150) for _round in range(2)]   # every (subset, total) pair twice,
+        streams += [insertion_cases(rng, allL, 80, 200),                    # in differently mixed batches
                     substitution_cases(rng, allL, 120), malformed_cases(rng, allL, 60)]
         extra = [form_cases(rng, 6), reuse_cases(rng, 20), small_cases(rng, 12)]
     else:
